@@ -65,6 +65,34 @@ let model toks =
     let hf = pick h in
     let v = elems v in
     if verify_go hf (elem leaf) (jx hf O v (nat pi)) (nat ui) (m hf v) then "true" else "false"
+  | "Tall" :: h :: v ->
+    let hf = pick h in
+    let v = elems v in
+    "T:" ^ String.concat ";" (List.mapi (fun i _ -> join (t hf v (nat_of_int i))) v)
+  | "Jall" :: h :: x :: v ->
+    let hf = pick h in
+    let v = elems v in
+    let x = nat x in
+    let np = int_of_nat (pages x v) in
+    "J:" ^ String.concat ";"
+      (List.init np (fun p -> join (jx hf x v (nat_of_int p)) ^ "/" ^ join (lx hf x v (nat_of_int p))))
+  | "Vall" :: h :: v ->
+    let hf = pick h in
+    let v = elems v in
+    let n = List.length v in
+    let root = m hf v in
+    "V:" ^ String.concat ""
+      (List.mapi
+         (fun i leaf ->
+           let proof = jx hf O v (nat_of_int i) in
+           let b idx = if verify_go hf leaf proof (nat_of_int idx) root then "t" else "f" in
+           b i ^ b ((i + 1) mod n))
+         v)
+  | "Call" :: v ->
+    let v = elems v in
+    "P:" ^ String.concat ";"
+      (List.init (List.length v + 1) (fun i ->
+           match copath blake v (nat_of_int i) with Some b -> hex_fast b | None -> "err"))
   | "copath" :: i :: v -> (
     match copath blake (elems v) (nat i) with Some b -> hex_fast b | None -> "err")
   | "paged" :: ts ->
